@@ -91,6 +91,7 @@ func runC15(c *Check, rng *rand.Rand) {
 	if env.P.Alive() {
 		c15removed(c, rng, env, script)
 	}
+	c15compound(c, rng, 0)
 	c.MinEvals = 30
 }
 
@@ -407,5 +408,102 @@ func c15removed(c *Check, rng *rand.Rand, env *Env, script *Script) {
 		// put the node back
 		t.Install(env.Cl)
 		time.Sleep(3 * time.Second)
+	}
+}
+
+// c15compound: a split request over nodes A and B is failed because A is lost (B's
+// fragment stays behind, already answered); other clients then have requests in flight
+// on node C; B is lost too; C answers. The other clients are unaffected by B's loss and
+// must get their normal replies. timeoutMs > 0: the first request is timed out instead
+// of failed by a lost connection (C16's variant).
+func c15compound(c *Check, rng *rand.Rand, timeoutMs int) {
+	env, err := NewEnv(EnvOpt{Masters: 4, Cfg: ProxyCfg{Timeout: timeoutMs}})
+	must(err, "start env")
+	defer env.Close()
+	script := NewScript()
+	env.Cl.SetHandler(script.Handler)
+	a, b, cn := env.T.Nodes[0], env.T.Nodes[1], env.T.Nodes[2]
+	label := "split-request-failed-then-second-node-lost"
+	if timeoutMs > 0 {
+		label = "request-timed-out-then-its-node-lost"
+	}
+	for round := 0; round < c.Pick(4, 60) && env.P.Alive(); round++ {
+		var gates []*Gate
+		gate := func(k string) *Gate {
+			g := NewGate()
+			script.Plan(k).Gate = g
+			gates = append(gates, g)
+			return g
+		}
+		// step 1: many split requests over A and B, both gated
+		c1, err := env.Dial()
+		must(err, "dial")
+		n1 := 24
+		var keys []string
+		for i := 0; i < n1; i++ {
+			ka, kb := Key(slotOf(a, rng), newToken("ca")), Key(slotOf(b, rng), newToken("cb"))
+			gate(ka)
+			gate(kb)
+			keys = append(keys, ka, kb)
+			c1.Send(Req("MGET", ka, kb))
+		}
+		env.Barrier()
+		if timeoutMs > 0 {
+			time.Sleep(time.Duration(timeoutMs+1400) * time.Millisecond)
+			env.Barrier()
+		} else {
+			a.Node.KillConns()
+			env.Barrier()
+		}
+		c1.WaitReplies(n1, 5*time.Second) // errors
+		// step 2: another client's requests in flight on C (recycled message objects)
+		c2, err := env.Dial()
+		must(err, "dial")
+		n2 := 24
+		var k2 []string
+		for i := 0; i < n2; i++ {
+			k := Key(slotOf(cn, rng), newToken("cc"))
+			gate(k)
+			k2 = append(k2, k)
+			c2.Send(Req("GET", k))
+		}
+		env.Barrier()
+		// step 3: B is lost with the stale fragments still queued on its connection
+		b.Node.KillConns()
+		env.Barrier()
+		// step 4: C answers
+		for _, g := range gates {
+			g.Open()
+		}
+		ok := c2.WaitReplies(n2, 6*time.Second)
+		if !ok && env.P.Alive() {
+			env.Barrier()
+			time.Sleep(time.Second)
+			env.Barrier()
+		}
+		s := c2.Snapshot()
+		c.Eval(1)
+		c.Distinct(fmt.Sprintf("compound/%s/%d", label, round))
+		wit := map[string]interface{}{"scenario": label, "second_client_requests": n2, "second_client_received": valStrings(s.Replies)}
+		if !env.P.Alive() {
+			c.Violate(Violation{Class: "proxy-died", Shape: label, Detail: env.P.PanicLine(), Witness: wit})
+			return
+		}
+		if len(s.Replies) < n2 && !s.Closed {
+			c.Violate(Violation{Class: "client-left-waiting", Shape: label + "/unaffected-client",
+				Detail:  fmt.Sprintf("a client whose requests were on a healthy node holds %d of %d replies after another node was lost", len(s.Replies), n2), Witness: wit})
+		}
+		for i := 0; i < len(s.Replies) && i < n2; i++ {
+			if !bytes.Equal(s.Replies[i].Val.Raw, BulkReply([]byte("v:"+k2[i]))) {
+				c.Violate(Violation{Class: "wrong-reply-around-backend-loss", Shape: label + "/unaffected-client",
+					Detail:  fmt.Sprintf("request %d on a healthy node was answered %s", i, s.Replies[i].Val.String()), Witness: wit})
+				break
+			}
+		}
+		c.Count("compound_rounds", 1)
+		c1.Close()
+		c2.Close()
+		script.Forget(keys...)
+		script.Forget(k2...)
 	}
 }
